@@ -152,6 +152,14 @@ class C15:
             cases.append({"libs": libs, "comps": comps, "foreign": foreign, "cwd": cwd, "release": rng.random() < 0.3,
                           "pkgdir": rng.choice(["default", "default", "abs", "rel"]),
                           "seed_ids": [x["id"] for x in libs + comps if rng.random() < 0.6], "seed_kind": rng.randint(0, 3)})
+        # designed: a composite WITHOUT libcnb: dependencies (relative path + registry reference only), packaged from its own
+        # directory and from the workspace root -- its package.toml is normalised although nothing had to be packaged before it
+        for cwd in ("meta/solo", ""):
+            cases.append({"libs": [{"dir": "buildpacks/one", "id": "verif/one", "pkg": "pone", "bins": ["pone"], "extra": "", "aux": []}],
+                          "comps": [{"dir": "meta/solo", "id": "verif/solo", "deps": [["rel", "../foreign/x"], ["uri", "docker://reg/img:1"], ["rel", "./local"]],
+                                     "uri": ".", "os": None}],
+                          "foreign": [{"dir": "foreign/x", "id": "other/x"}], "cwd": cwd, "release": False, "pkgdir": "default",
+                          "seed_ids": [], "seed_kind": 0})
         return cases
 
     # ------------------------------------------------------------------ running
